@@ -64,3 +64,30 @@ Definition st_ok (i : st_in) (o : bool) : bool :=
             (match roots with [] => true | _ => N.eqb mode 0 end)
   else true.
 Definition st_judge := judge st_model Bool.eqb st_ok (fun _ => 0%N).
+
+(* ---------- whole-plugin round correspondence (sink C04_round) ----------
+   commit.Plugin.Outcome (merkle-root part) on the decoded attributed observations of a DON history round must equal
+   the composition of the C01 model (CommitConsensus.get_consensus) and the C03 model (CommitSM.get_outcome).
+   RMN is disabled in these histories (no bundles, empty remote configs). *)
+Require Export Verif.Model.CommitSM.
+Require Verif.Model.CommitConsensus Verif.Check.C03_check.
+Definition mkObs := CommitConsensus.mkObs.
+Definition rmn_none : CommitConsensus.rmn_cfg := CommitConsensus.mkRmn 0 true true [] 0 0 true.
+
+Definition conv_root (v : CommitConsensus.root_t) : CommitSM.root := let '(c, a, (s, e), r) := v in (c, (s, e), a, r).
+Definition conv_cons (c : CommitConsensus.cons) : CommitSM.cons :=
+  CommitSM.mkCons (map (fun kv => conv_root (snd kv)) (CommitConsensus.c_roots c))
+                  (CommitConsensus.c_onramp c) (CommitConsensus.c_offramp c) CommitSM.cfg_empty.
+Definition round_cons (F : Z) (dest : N) (aos : list CommitConsensus.aobs) : option CommitSM.cons :=
+  match CommitConsensus.get_consensus F dest aos with Ok c => Some (conv_cons c) | _ => None end.
+
+(* input: F, dest, MaxReportTransmissionCheckAttempts, MaxMerkleTreeSize, previous outcome, retry flag, observations *)
+Definition rd_in := (Z * N * N * N * CommitSM.outcome * bool * list CommitConsensus.aobs)%type.
+Definition rd_model (i : rd_in) : CommitSM.outcome :=
+  let '(F, dest, max, n, prev, retry, aos) := i in
+  CommitSM.get_outcome max n prev (CommitSM.mkQuery retry None) (round_cons F dest aos).
+(* roots of a consensus map come in map order; the outcome sorts them: compare outcomes field-wise *)
+Definition rd_ok (i : rd_in) (o : CommitSM.outcome) : bool :=
+  let '(F, dest, max, n, prev, retry, aos) := i in
+  C03_check.step_ok max prev (CommitSM.mkQuery retry None, round_cons F dest aos) o.
+Definition rd_judge := judge rd_model C03_check.outcome_eqb rd_ok (fun _ => 0%N).
